@@ -99,15 +99,17 @@ def _parse_air(logdir: str, crate: str) -> dict:
 
 
 def run_unit(template: str, build_root: str, defines=(), seed: int | None = None, rlimit: float | None = None,
-             threads: int = 4, timeout: int = 600, log_air: bool = True) -> UnitResult:
+             threads: int = 4, timeout: int = 600, log_air: bool = True,
+             overlay: dict | None = None, tag_suffix: str = '') -> UnitResult:
     unit = os.path.basename(template).replace('.rs.in', '')
-    tag = unit + ''.join('_' + d.lower() for d in sorted(defines))
+    tag = unit + ''.join('_' + d.lower() for d in sorted(defines)) + tag_suffix
     bdir = os.path.join(build_root, tag)
     shutil.rmtree(bdir, ignore_errors=True)
     os.makedirs(bdir)
     path = os.path.join(bdir, unit + '.rs')
     t0 = time.time()
     try:
+        asm.set_overlay(overlay)
         a = asm.assemble(template, set(defines))
     except (LostAnchor, asm.TemplateError) as e:
         return UnitResult(unit, tuple(defines), path, None, False, f'{type(e).__name__}: {e}', {}, [], {}, 0, 0,
